@@ -28,6 +28,7 @@ class Ctx:
     def __init__(self, pid, tier, seed):
         self.pid, self.tier, self.seed = pid, tier, seed
         self.scratch = os.path.join(VERIF, ".scratch", f"{pid}-{os.getpid()}")
+        self.repo = REPO
         self.obligation_failures = []   # broken proof obligations / regeneration failures
         self.notes = []
         self.t0 = time.time()
@@ -163,10 +164,22 @@ def tail(s, n):
     return "\n".join(s.strip().split("\n")[-n:])
 
 
+def modfile_args(ctx):
+    """When VERIF_REPO points at a scratch worktree, build against it through an alternative go.mod."""
+    if os.path.realpath(REPO) == "/repo":
+        return []
+    alt = os.path.join(ctx.scratch, "alt.mod")
+    if not os.path.exists(alt):
+        mod = open(os.path.join(HARNESS, "go.mod")).read().replace("=> /repo/", "=> " + REPO.rstrip("/") + "/")
+        open(alt, "w").write(mod)
+        shutil.copy(os.path.join(HARNESS, "go.sum"), os.path.join(ctx.scratch, "alt.sum"))
+    return ["-modfile", alt]
+
+
 def build_harness(ctx, spec):
     pkg = spec["harness"]
     binp = os.path.join(ctx.scratch, "h_" + pkg.replace("/", "_"))
-    cmd = ["go", "build", "-tags", "verif"]
+    cmd = ["go", "build", "-tags", "verif"] + modfile_args(ctx)
     if ctx.tier == "thorough" and spec.get("race"):
         cmd.append("-race")
     cmd += ["-o", binp, "./" + pkg]
@@ -192,10 +205,13 @@ def split_cases(lines):
 
 
 def load_known():
-    p = os.path.join(VERIF, "known_findings.json")
-    if not os.path.exists(p):
-        return []
-    return json.load(open(p)).get("findings", [])
+    """known_findings.json plus known_findings/*.json (one file per property, same format)."""
+    import glob
+    out = []
+    for p in [os.path.join(VERIF, "known_findings.json")] + sorted(glob.glob(os.path.join(VERIF, "known_findings", "*.json"))):
+        if os.path.exists(p):
+            out += json.load(open(p)).get("findings", [])
+    return out
 
 
 def match_known(known, pid, sig):
@@ -208,8 +224,17 @@ def match_known(known, pid, sig):
     return None
 
 
+def out_root():
+    """Runs against a scratch worktree (VERIF_REPO) never touch the committed evidence/replays."""
+    if os.path.realpath(REPO) == "/repo":
+        return VERIF
+    d = os.path.join(VERIF, ".scratch", "alt-" + hashlib.sha1(REPO.encode()).hexdigest()[:8])
+    os.makedirs(d, exist_ok=True)
+    return d
+
+
 def write_replay(ctx, n, obj):
-    d = os.path.join(VERIF, "replays", ctx.pid)
+    d = os.path.join(out_root(), "replays", ctx.pid)
     os.makedirs(d, exist_ok=True)
     p = os.path.join(d, f"{ctx.tier}-{n}.json")
     with open(p, "w") as f:
@@ -365,8 +390,8 @@ def write_evidence(ctx, spec, proof, tie, violations):
     ev = {"property_id": ctx.pid, "tier": ctx.tier, "seed": ctx.seed, "level": "proof", "coverage": cov,
           "assumptions": spec.get("assumptions", []), "wall_s": round(time.time() - ctx.t0, 2),
           "violations": violations}
-    os.makedirs(os.path.join(VERIF, "evidence"), exist_ok=True)
-    with open(os.path.join(VERIF, "evidence", f"{ctx.pid}.json"), "w") as f:
+    os.makedirs(os.path.join(out_root(), "evidence"), exist_ok=True)
+    with open(os.path.join(out_root(), "evidence", f"{ctx.pid}.json"), "w") as f:
         json.dump(ev, f, indent=1)
 
 
